@@ -100,6 +100,24 @@ def expectedInitiatorDone (H : Nat → Nat → C) (n1 : Nat) (p1 : String) (n2 :
   let m2 := net.f2 ⟨n2, H m1.nonce n2, p2⟩
   decide (m1.proto = p2) && decide (m2.proto = p1) && decide (m2.challenge = H n1 m2.nonce)
 
+/-- What a `conn` op observes of a run: (initiator's side finished, responder completed). -/
+def Outcome.connObs (o : Outcome C) : Bool × Bool := (o.initiatorDone, o.completes)
+
+/-- Monitor of the connection-level ops: the responder (`runHandshakeAsResponder`) completes iff all
+    four conditions hold, the initiator (`runHandshakeAsInitiator`) finishes iff the first three do. -/
+def holdsConn (H : Nat → Nat → C) (n1 : Nat) (p1 : String) (n2 : Nat) (p2 : String) (net : Net C)
+    (initOk respOk : Bool) : Bool :=
+  (respOk == (decide ((net.f1 ⟨n1, p1⟩).proto = p2)
+      && decide ((net.f2 ⟨n2, H (net.f1 ⟨n1, p1⟩).nonce n2, p2⟩).proto = p1)
+      && decide ((net.f2 ⟨n2, H (net.f1 ⟨n1, p1⟩).nonce n2, p2⟩).challenge
+          = H n1 (net.f2 ⟨n2, H (net.f1 ⟨n1, p1⟩).nonce n2, p2⟩).nonce)
+      && decide ((net.f3 ⟨(net.f2 ⟨n2, H (net.f1 ⟨n1, p1⟩).nonce n2, p2⟩).challenge⟩).challenge
+          = H (net.f1 ⟨n1, p1⟩).nonce n2)))
+  && (initOk == (decide ((net.f1 ⟨n1, p1⟩).proto = p2)
+      && decide ((net.f2 ⟨n2, H (net.f1 ⟨n1, p1⟩).nonce n2, p2⟩).proto = p1)
+      && decide ((net.f2 ⟨n2, H (net.f1 ⟨n1, p1⟩).nonce n2, p2⟩).challenge
+          = H n1 (net.f2 ⟨n2, H (net.f1 ⟨n1, p1⟩).nonce n2, p2⟩).nonce)))
+
 /-- The property as a closed formula over the delivered messages (the monitor's side):
     the run completes iff both protocol checks and both challenge equations hold. -/
 def expectedComplete (H : Nat → Nat → C) (n1 : Nat) (p1 : String) (n2 : Nat) (p2 : String)
